@@ -700,7 +700,7 @@ func compileStmt(context *funcContext, stmt ast.Stmt, isLastStmt bool) { // {{{
 func compileAssignStmtLeft(context *funcContext, stmt *ast.AssignStmt) (int, []*assigncontext) { // {{{
 	reg := context.RegTop()
 	acs := make([]*assigncontext, 0, len(stmt.Lhs))
-	for i, lhs := range stmt.Lhs {
+	for _, lhs := range stmt.Lhs {
 		switch st := lhs.(type) {
 		case *ast.IdentExpr:
 			identtype := getIdentRefType(context, context, st)
@@ -711,9 +711,9 @@ func compileAssignStmtLeft(context *funcContext, stmt *ast.AssignStmt) (int, []*
 			case ecUpvalue:
 				context.Upvalues.RegisterUnique(st.Value)
 			case ecLocal:
-				// only the last target may be computed in place: the earlier right-hand
-				// sides must be evaluated before any local on the left is overwritten
-				if i == len(stmt.Lhs)-1 {
+				// a lone `local = expr` may be computed in place; with several targets or
+				// values every right-hand side must be evaluated before any store
+				if len(stmt.Lhs) == 1 && len(stmt.Rhs) == 1 {
 					ec.reg = context.FindLocalVar(st.Value)
 				}
 			}
@@ -769,12 +769,16 @@ func compileAssignStmtRight(context *funcContext, stmt *ast.AssignStmt, reg int,
 		idx := reg
 		reginc := compileExpr(context, reg, expr, ec)
 		if ec.ctype == ecTable {
+			regbefore := reg
 			if _, ok := expr.(*ast.LogicalOpExpr); !ok {
 				context.Code.PropagateKMV(context.RegTop(), &ac.valuerk, &reg, reginc)
 			} else {
 				ac.valuerk = idx
 				reg += reginc
 			}
+			// the value occupies a temporary only if it was not propagated
+			// from a constant or from a local's own register
+			ac.needmove = reg != regbefore
 		} else {
 			ac.needmove = reginc != 0
 			reg += reginc
@@ -821,7 +825,7 @@ func compileAssignStmt(context *funcContext, stmt *ast.AssignStmt) { // {{{
 				opcode = OP_SETTABLEKS
 			}
 			code.AddABC(opcode, acs[i].ec.reg, acs[i].keyrk, acs[i].valuerk, sline(ex))
-			if !opIsK(acs[i].valuerk) {
+			if acs[i].needmove {
 				reg -= 1
 			}
 		}
